@@ -208,7 +208,7 @@ class WbFabric:
 
     def __init__(self, name, kind, module, masters, slaves, decs, lean_open, register=False, timeout=None,
                  error_sig=None, alphabet=None, env=None, bus=None, spec=None, adr_shifts=None, exclusive=True,
-                 adr_pool_extra=None):
+                 adr_pool_extra=None, adr_maps=None):
         self.name, self.kind, self.module = name, kind, module
         # `exclusive`: the address map is meant to be disjoint (everything SoCBusHandler accepts must be), so a
         # cycle presented to two slaves is a violation (monitor rule R10); False only for the deliberately
@@ -228,6 +228,9 @@ class WbFabric:
         self.adr_shifts = list(adr_shifts) if adr_shifts else None
         if self.adr_shifts and any(self.adr_shifts):
             self.model_letter = self._word_letter
+        # remapped master ports (`add_master(region=…)`): adr_maps[i] is the SPECIFICATION of the remapping (word
+        # address driven -> word address the bus must see); used by the monitor only, the model remaps by itself
+        self.adr_maps = list(adr_maps) if adr_maps and any(f is not None for f in adr_maps) else None
         self.netlist = LazyNetlist(module)
         self.inputs = None
         self.outputs = None
@@ -292,11 +295,20 @@ class WbFabric:
             self.last = None
         return self._env.next_letter(rng, t, self.last)
 
+    def _mon_letter(self, letter):
+        """The letter as the interconnect must see it according to the specification: byte-addressed master ports
+        shifted to word addresses, remapped master ports folded into their region."""
+        l = list(self._word_letter(letter)) if (self.adr_shifts and any(self.adr_shifts)) else list(letter)
+        for i, f in enumerate(self.adr_maps or ()):
+            if f is not None:
+                l[NM * i + 3] = f(l[NM * i + 3])
+        return tuple(l)
+
     def monitor(self):
         mon = FabricMonitor(self)
-        if self.adr_shifts and any(self.adr_shifts):
+        if (self.adr_shifts and any(self.adr_shifts)) or self.adr_maps:
             inner = mon.observe
-            mon.observe = lambda letter, outs: inner(self._word_letter(letter), outs)
+            mon.observe = lambda letter, outs: inner(self._mon_letter(letter), outs)
         return mon
 
 
@@ -460,6 +472,8 @@ def glue_word(op):
     """Script line -> word of the Lean driver (`open socglue` / `call socglue`)."""
     if op[0] == "M":
         return "M"
+    if op[0] == "MR":
+        return "MR:%d:%d" % (op[1], op[2])
     if op[0] == "I":
         return "I:%d:%d" % (op[1], op[2])
     return "%s:%s:%d:%d:%d" % (op[0], "N" if op[1] is None else op[1], op[2], int(op[3]), int(op[4]))
@@ -472,6 +486,7 @@ def _pow2(size):
 class GlueBuild:
     """A REAL `SoCBusHandler` driven by a build script.  Script lines (position k = name):
          ("M",)                                 add_master("n<k>", Interface)
+         ("MR", origin, size)                   add_master("n<k>", Interface, region=SoCRegion(origin, size))  (remapper)
          ("S", origin|None, size, cached, linker)   add_slave("n<k>", Interface, SoCRegion(...))
          ("R", origin|None, size, cached, linker)   add_region("n<k>", SoCRegion(...))       (no slave)
          ("I", origin, size)                    add_region("n<k>", SoCIORegion(origin, size, cached=False))
@@ -489,16 +504,21 @@ class GlueBuild:
                               timeout=timeout, interconnect=interconnect, interconnect_register=register)
         self.bus = bus
         self.masters, self.slaves, self.slave_names = [], [], []
+        self.remaps = []                      # per master: (origin, size) of `add_master(region=…)` or None
         self.verdict = "ok"
         stderr = sys.stderr
         try:
             for k, op in enumerate(self.script):
                 name = "n%d" % k
                 try:
-                    if op[0] == "M":
+                    if op[0] in ("M", "MR"):
                         mst = wishbone.Interface(data_width=data_width, adr_width=self.adr_width)
-                        bus.add_master(name, mst)
+                        if op[0] == "MR":
+                            bus.add_master(name, mst, region=S.SoCRegion(origin=op[1], size=op[2]))
+                        else:
+                            bus.add_master(name, mst)
                         self.masters.append(mst)
+                        self.remaps.append((op[1], op[2]) if op[0] == "MR" else None)
                     elif op[0] == "S":
                         slv = wishbone.Interface(data_width=data_width, adr_width=self.adr_width)
                         bus.add_slave(name, slv, S.SoCRegion(origin=op[1], size=op[2], cached=bool(op[3]), linker=bool(op[4])))
@@ -585,12 +605,15 @@ class GlueBuild:
         decs = [DecRegion(o, sz) for (o, sz) in self.slave_regions]
         has_to = topo == "shared" and a["timeout"] is not None
         linker_slaves = any(self.bus.regions[nm].linker for nm in self.slave_names)
+        sh = self.sh
+        # specification of a remapped port (power-of-two, aligned regions): region origin + offset modulo its size
+        maps = [None if r is None else (lambda a, o=r[0], sz=r[1]: (o >> sh) | (a & ((sz >> sh) - 1))) for r in self.remaps]
         inst = WbFabric(kw.pop("name", self.describe()), kind, self.bus, self.masters, self.slaves, decs,
                         "socglue " + self.lean_args(), register=a["register"] and topo != "p2p",
                         timeout=int(a["timeout"]) if has_to else None,
                         error_sig=_err_sig(getattr(self.bus, "_interconnect", None)),
                         spec=BusSpec(a["data_width"], self.adr_width, None, self.n),
-                        exclusive=not linker_slaves, adr_pool_extra=self.boundary_words(), **kw)
+                        exclusive=not linker_slaves, adr_pool_extra=self.boundary_words(), adr_maps=maps, **kw)
         inst.topology = self.topology
         return inst
 
